@@ -2,7 +2,7 @@
 import numpy as np
 from hypothesis import strategies as st
 
-from checks.common import S, Raised, call, get, maxnorm, perm_from_noise, polygon_is_convex_ccw
+from checks.common import FORMS, S, Raised, as_form, call, get, maxnorm, perm_from_noise, polygon_is_convex_ccw
 from gen import poly as gp
 from gen import zoo
 from harness.runner import EPS, Clause
@@ -21,7 +21,8 @@ K = 1e4
 @st.composite
 def _case(draw, planar):
     return {"poly": draw(gp.simple_polygon(max_n=24)), "emb": draw(gp.embedding(planar_only=planar)),
-            "perm": draw(zoo.noise(30)), "logs": draw(zoo.f(-8, 6)) if draw(st.integers(0, 3)) == 0 else 0.0}
+            "perm": draw(zoo.noise(30)), "logs": draw(zoo.f(-8, 6)) if draw(st.integers(0, 3)) == 0 else 0.0,
+            "vform": draw(st.sampled_from(FORMS))}
 
 
 def _expected_normal(V, arg):
@@ -77,8 +78,13 @@ def _measures(rec, P, V, nexp, sig, planar_plus_z, xy=None, exact=None):
 def _run(case, rec, planar):
     xy = gp.build_polygon_xy(case["poly"])
     e = case["emb"]
-    em = gp.embed(xy, e)
     logs = case.get("logs", 0.0)  # uniform scale 10^U(-8,6) in a quarter of the cases (tolerances are scale-free)
+    if planar and case.get("vform") in ("int64", "int32", "float32") and case["poly"]["kind"] in ("lattice", "lattice_free"):
+        # integer / float32 vertex arrays are only handed over when they hold the values exactly: keep the lattice polygon
+        # on the lattice (no in-plane rotation, integer offset, no scaling)
+        e = dict(e, inplane=0.0, offset2=[float(round(t)) for t in e["offset2"]])
+        logs = 0.0
+    em = gp.embed(xy, e)
     if logs > 5.0 and e["place"] is not None:
         # tilted planes only up to 1e5: beyond, the rounded coordinates (and the normal taken from a possibly flat first
         # corner) miss Polygon's documented planarity test |n.v - d| <= 1e-8 + planar_tolerance*|d| for rounding alone
@@ -101,7 +107,9 @@ def _run(case, rec, planar):
               "plus_z" if plus_z else None, "extreme_scale" if abs(case.get("logs", 0.0)) > 3 else None)
     rec.nontrivial = (not convex) or cw_about_normal or default_flipped or not inplane
     argc = arg.copy() if isinstance(arg, np.ndarray) else arg
-    P = call(S.Polygon, V.copy(), argc) if arg is not None else call(S.Polygon, V.copy())
+    Vin, vform = as_form(V, case.get("vform", "float64"))  # container / dtype of the vertex argument (same values)
+    rec.label("vform:" + vform)
+    P = call(S.Polygon, Vin, argc) if arg is not None else call(S.Polygon, Vin)
     if isinstance(P, Raised):
         rec.fail("construct", dict(sig, type=P.type, kind=kind), msg=P.msg)
         return
@@ -114,7 +122,7 @@ def _run(case, rec, planar):
     _measures(rec, P, V, nexp, sig, plus_z, xy=V[:, :2], exact=exact)
     # (N,2) input is the same polygon
     if inplane and arg is None:
-        P2 = call(S.Polygon, V[:, :2].copy())
+        P2 = call(S.Polygon, as_form(V[:, :2], case.get("vform", "float64"))[0])
         if isinstance(P2, Raised):
             rec.fail("construct_2d", dict(sig, type=P2.type), msg=P2.msg)
         else:
@@ -125,7 +133,8 @@ def _run(case, rec, planar):
         p = perm_from_noise(case["perm"], len(V))
         Vp = V[p]
         argp = arg.copy() if isinstance(arg, np.ndarray) else arg
-        C = call(S.ConvexPolygon, Vp.copy(), argp) if arg is not None else call(S.ConvexPolygon, Vp.copy())
+        Vpin = as_form(Vp, case.get("vform", "float64"))[0]
+        C = call(S.ConvexPolygon, Vpin, argp) if arg is not None else call(S.ConvexPolygon, Vpin)
         if isinstance(C, Raised):
             rec.fail("construct_convex", dict(sig, type=C.type), msg=C.msg)
             return
